@@ -41,11 +41,18 @@ type Cfg struct {
 	App bool `json:"app,omitempty"`
 	// Unix (App only): the main port listens on a unix domain socket (--use-domain-socket).
 	Unix bool `json:"unix,omitempty"`
+	// Also (App only): L1 handler flags given in addition to the one L1H stands for ("chunked",
+	// "l1-batched", comma separated). memproxy accepts such combinations silently and picks one
+	// handler by a fixed precedence (in-memory, chunked, batched, direct); L1H names the winner.
+	Also string `json:"also,omitempty"`
 }
 
 func (c Cfg) String() string {
 	if c.App && c.Unix {
 		return fmt.Sprintf("%s/%s/%s/l1=%s/main-unix", c.Orca, c.Lock, c.Proto, c.L1H)
+	}
+	if c.App && c.Also != "" {
+		return fmt.Sprintf("%s/%s/%s/l1=%s/main+%s", c.Orca, c.Lock, c.Proto, c.L1H, c.Also)
 	}
 	if c.App {
 		return fmt.Sprintf("%s/%s/%s/l1=%s/main", c.Orca, c.Lock, c.Proto, c.L1H)
@@ -257,7 +264,23 @@ func (c *Client) Close() error {
 		c.doneClosed = true
 		close(c.done)
 	}
+	gone := c.gone
 	c.mu.Unlock()
+	if gone {
+		// the peer went away abortively: the socket is released, and the pending error is reported
+		return syscall.ECONNRESET
+	}
+	return nil
+}
+
+// CloseWrite: shutting down the sending side of a connection whose peer has gone away abortively
+// fails (ENOTCONN); otherwise nothing to do for an in-memory connection.
+func (c *Client) CloseWrite() error {
+	c.mu.Lock()
+	defer c.mu.Unlock()
+	if c.gone {
+		return syscall.ENOTCONN
+	}
 	return nil
 }
 
